@@ -790,6 +790,8 @@ def oracles(sim, sc, st):
     exec_canceled = dict()
     colo_nodes    = dict()   # tag -> set(node_index) of first grant
     tainted       = set()
+    share_gpus    = set()    # GPUs on which the known share defect has shown
+    used_nodes    = set()    # node indices which ever carried a task
 
     def who_is(ev, part):
         return part in str(ev.get('who') or '')
@@ -800,6 +802,14 @@ def oracles(sim, sc, st):
             return          # an application-made overlap: nothing conclusive
         for s in slots:
             ni = s['node_index']
+            used_nodes.add(ni)
+            if len(used_nodes) > lay['nodes'] and lay.get('agent_nodes'):
+                # more distinct nodes carry tasks than the pilot has for
+                # tasks: a node set aside for agents / services is in use
+                # (independent of the node lists the resource manager built)
+                v(sim, 'C01', 'agent_node_used', by_app, uid,
+                  {'used': sorted(used_nodes), 'task_nodes': lay['nodes'],
+                   'agent_nodes': lay['agent_nodes']}, seq)
             if ni not in nodes:
                 if ni in agent_idx:
                     v(sim, 'C01', 'agent_node_used', by_app, uid, s, seq)
@@ -808,14 +818,19 @@ def oracles(sim, sc, st):
                 continue
             node = nodes[ni]
             for ci, occ in s['cores']:
-                if ci >= len(node['cores']) or ci < 0:
+                if ci >= min(len(node['cores']), lay['cpn']) or ci < 0:
                     v(sim, 'C01', 'unknown_core', by_app, uid, s, seq)
-                elif node['cores'][ci] is None:
+                elif node['cores'][ci] is None or \
+                        ci in (lay.get('blocked_cores') or []):
+                    # (blocked according to the configuration the pilot was
+                    # given - not only according to the node list the
+                    # resource manager made of it)
                     v(sim, 'C01', 'down_used', by_app, uid, s, seq)
             for gi, occ in s['gpus']:
-                if gi >= len(node['gpus']) or gi < 0:
+                if gi >= min(len(node['gpus']), lay['gpn']) or gi < 0:
                     v(sim, 'C01', 'unknown_gpu', by_app, uid, s, seq)
-                elif node['gpus'][gi] is None:
+                elif node['gpus'][gi] is None or \
+                        gi in (lay.get('blocked_gpus') or []):
                     v(sim, 'C01', 'down_used', by_app, uid, s, seq)
         # against what is held (including the new task itself)
         cores = dict()
@@ -890,6 +905,13 @@ def oracles(sim, sc, st):
                             for gi, occ in s_['gpus']:
                                 if (s_['node_index'], gi) == key and occ < 1:
                                     site = 'sched:holder_preplaced_gpu_share'
+                if site == 'sched:holder_preplaced_gpu_share':
+                    share_gpus.add(key)
+                elif key in share_gpus:
+                    # the scheduler's entry for this GPU already is wrong
+                    # since the share of an application placement was
+                    # released (same known finding, later consequence)
+                    site = 'sched:holder_preplaced_gpu_share'
                 v(sim, 'C01', 'gpu_over', site, uid,
                   {'gpu': key, 'sum': gpus[key],
                    'holders': gpus[('who',) + key]}, seq)
@@ -899,8 +921,9 @@ def oracles(sim, sc, st):
         for ni in sorted(mine_n):
             if ni not in nodes:
                 continue
-            cap_l = nodes[ni].get('lfs') or 0
-            cap_m = nodes[ni].get('mem') or 0
+            # (capacities as configured, not as the node list reports them)
+            cap_l = lay.get('lfs') or 0
+            cap_m = lay.get('mem') or 0
             if lfs.get(ni, 0) > cap_l + 1e-9 and any(
                     (s['lfs'] or 0) > 0 for s in slots):
                 v(sim, 'C01', 'lfs_over', 'sched', uid,
